@@ -307,8 +307,12 @@ def r4_connect(ctx, fam):
         # (i) admission only under the served-namespace condition
         ns_ast = run.expand(bind_call(c0.expr, m.method(
             MANAGER[fam], 'connect')).get('namespace'))
+        def served(a):
+            if isinstance(a, ast.BoolOp) and isinstance(a.op, ast.Or):
+                return all(served(v) for v in a.values)
+            return served_atom(a, ns_ast)
         dom = [c for c in p.conds if c.at <= c0.idx and c.pol and
-               served_atom(run.expand(c.atom), ns_ast)]
+               served(run.expand(c.atom))]
         once('served-guard', bool(dom),
              'manager.connect only under the served-namespace condition',
              'manager.connect reachable without a true served-namespace '
@@ -603,7 +607,9 @@ def r6_manager(ctx):
         if not p.normal:
             continue
         app = [e for e in p.calls('append')
-               if e.recv() == 'self.pending_disconnect[%s]' % ns and
+               if U(run.expand(e.expr.func.value)) in (
+                   'self.pending_disconnect[%s]' % ns,
+                   'self.pending_disconnect.setdefault(%s, [])' % ns) and
                U(e.expr.args[0]) == sid]
         ctx.check(bool(app), 'BaseManager.pre_disconnect',
                   'appends sid to pending_disconnect[namespace]',
@@ -632,7 +638,7 @@ def r7_refused(ctx):
             if U(a) == av:
                 return n > 0
             return None
-        run = Run(f.node, oracle=oracle)
+        run = run_function(f, ctx.model, oracle=oracle)
         if len(run.paths) != 1:
             raise AnalysisError('%s: %d paths for len(args)=%d; test outside '
                                 'the length abstraction' % (
